@@ -8,9 +8,9 @@ from props import consts_common
 ID = "C13"
 COQ_TARGETS = ["Run/Run_Gossip.vo", "Run/Run_Codec.vo"]
 META = {
-    "text": "Theorems (Properties/C13.v) over the byte-exact Gallina model of encodeDigest/encodeDelta/Gossip.gossip and of the packet handlers: every emitted packet is an error or at most max bytes, for every content and every max; it is the encoding of the header plus a per-node prefix of whole entries (complete nodes, then at most one partial node, nothing after), the cut is maximal (the first item left out does not fit) and at least one entry is sent whenever header + node header + first entry fit; for every decoded digest/delta whatsoever the receiver's own published state is unchanged and the handler is total. Tied to the code by (a) real encode* swept over EVERY max from 0 to full length+2 for generated contents with byte-exact comparison, (b) byte-exact comparison of every packet emitted in generated cluster histories, (c) hostile datagrams/streams against the real handlers (no panic, no hang, own state unchanged; whatever the real decoder accepts is replayed through the model and the resulting state compared).",
+    "text": "Theorems (Properties/C13.v) over the byte-exact Gallina model of encodeDigest/encodeDelta/Gossip.gossip and of the packet handlers: every emitted packet is an error or at most max bytes, for every content and every max; it is the encoding of the header plus a per-node prefix of whole entries (complete nodes, then at most one partial node, nothing after), the cut is maximal (the first item left out does not fit) and at least one entry is sent whenever header + node header + first entry fit; for every decoded digest/delta whatsoever the receiver's own published state is unchanged and the handler is total. Tied to the code by (a) real encode* swept over EVERY max from 0 to full length+2 for generated contents with byte-exact comparison, (b) byte-exact comparison of every packet emitted in generated cluster histories, (c) hostile datagrams/streams against the real handlers (no panic, no hang, own state unchanged; whatever the real decoder accepts is replayed through the model and the resulting state compared). C13_packet_prefix_is_the_sources / C13_message_types_distinct: message type bytes and protocol version of the codec model are those of the current source (regenerated constants). Bulk pulls of 300-4200 entries (monitor only): every datagram fits, the pulled view has no hole, nobody's own state is touched.",
     "note": "Partial: the third-party decoder's (ugorji/go/codec) memory safety and termination on hostile bytes are tested, not proved; the model contains an encoder and the cut, the decoder is exercised through the real code. UDP itself is environment.",
-    "technique": "Coq proof over a byte-exact codec model (size/prefix/maximality by induction over the truncation loop) + differential sweep over every max + hostile-input replay",
+    "technique": "Coq proof over a byte-exact codec model (size/prefix/maximality by induction over the truncation loop) + differential sweep over every max + hostile-input replay + translator tie for the message type bytes (regenerated constants) + bulk-pull probe (monitor only)",
 }
 ASSUMPTIONS = [
     "msgpack encoding as produced by ugorji/go/codec v1.3.1 MsgpackHandle with default options (validated byte-for-byte on every run)",
